@@ -93,6 +93,21 @@ class SymDT:
     def astimezone(self, tz=None):
         if tz is not pytz.utc and tz is not dt.timezone.utc:
             raise Unsupported("astimezone to a zone other than UTC")
+        if self.tzinfo is None:
+            # CPython reads a naive value as SYSTEM LOCAL time here.  The local zone is the environment's, i.e. an arbitrary whole-hour UTC offset
+            # (a nondeterministic stub): the hour moves by it (date roll-over is not modelled -- any non-zero offset already changes the hour; a
+            # witness is replayed natively under a TZ with that offset).  Unmodified code never takes this path: it localizes naive values as UTC.
+            from engine.pysym import Engine, SInt
+            f = dict(self.f)
+            if not hasattr(Engine.cur, "pc"):
+                # translator validation runs concretely, next to the real function in THIS process: its local zone is the process's
+                import time as _time
+                f["h"] = (self.f["h"] + _time.timezone // 3600) % 24
+                return SymDT(f, True, pytz_utc=(tz is pytz.utc))
+            loc = z3.Int("local_utc_offset_h")
+            Engine.cur.assume(z3.And(loc >= -12, loc <= 14))
+            f["h"] = SInt((lift(self.f["h"]) - loc) % 24)
+            return SymDT(f, True, pytz_utc=(tz is pytz.utc))
         if self.pytz_utc and tz is pytz.utc:
             return self                      # CPython: astimezone() returns self when tzinfo is the target zone object
         if hasattr(self, "precision"):
@@ -243,7 +258,7 @@ STUBS = {"__callables__": [(is_localize, localize_stub), (is_strptime, strptime_
 STUB_NOTES = [
     "strftime: glibc semantics (%Y unpadded decimal year; %m %d %H %M %S two digits) -- contract-tested against time.strftime",
     "strptime: canonical-width text only (%Y 4 digits, others 2, %f 1..6 digits); valid calendar date assumed -- contract-tested",
-    "pytz.utc.localize / astimezone(utc) on UTC or naive values keep the fields (non-zero UTC offsets outside the claim)",
+    "pytz.utc.localize / astimezone(utc) on UTC values keep the fields (non-zero UTC offsets outside the claim); astimezone of a NAIVE value reads it in the process's local zone, modelled as an arbitrary whole-hour offset -12..+14 (the environment is a nondeterministic stub; witnesses replayed under TZ)",
     "STIXdatetime(ts, precision, constraint) keeps the fields and attaches the metadata (datetime.__new__ is C code)",
 ]
 
@@ -347,8 +362,23 @@ def model_fields(m, f):
 
 
 # ---------------------------------------------------------------- native replays (no solver, real code)
-def replay_format(Y, M, D, h, m, s, us, aware, pname, cname):
-    """real format_datetime on a real STIXdatetime vs the integer-arithmetic oracle"""
+def replay_format(Y, M, D, h, m, s, us, aware, pname, cname, local_offset_h=0):
+    """real format_datetime on a real STIXdatetime vs the integer-arithmetic oracle; local_offset_h: run with the process's local zone at that
+    whole-hour UTC offset (what the text says must not depend on it)"""
+    import os
+    import time as _time
+    if local_offset_h:
+        old_tz = os.environ.get("TZ")
+        os.environ["TZ"] = "XXX%+d" % (-local_offset_h)      # POSIX TZ strings give the offset WEST of Greenwich
+        _time.tzset()
+        try:
+            return replay_format(Y, M, D, h, m, s, us, aware, pname, cname)
+        finally:
+            if old_tz is None:
+                del os.environ["TZ"]
+            else:
+                os.environ["TZ"] = old_tz
+            _time.tzset()
     p, c = Precision[pname], PrecisionConstraint[cname]
     # "aware" covers every tzinfo with offset 0: the pytz singleton (astimezone returns the same object) and others
     tz = {0: None, False: None, 1: pytz.utc, True: pytz.utc, 2: dt.timezone.utc}[aware]
@@ -512,8 +542,9 @@ def job_format(tier, seed):
                         return _result(eng, I, bad, cands, samples, validated, asserting, t0, inconclusive="solver returned %s" % r)
                     bad += 1
                     mf = model_fields(s.model(), f)
-                    cands.append({"call": "replay_format(%d, %d, %d, %d, %d, %d, %d, %r, %r, %r)" % (
-                        mf["Y"], mf["M"], mf["D"], mf["h"], mf["m"], mf["s"], mf["us"], aware, p.name, c.name),
+                    loc = s.model().eval(z3.Int("local_utc_offset_h"), model_completion=True).as_long()
+                    cands.append({"call": "replay_format(%d, %d, %d, %d, %d, %d, %d, %r, %r, %r, local_offset_h=%d)" % (
+                        mf["Y"], mf["M"], mf["D"], mf["h"], mf["m"], mf["s"], mf["us"], aware, p.name, c.name, loc),
                         "desc": "format_datetime text differs from canonical text"})
     except Unsupported as e:
         return _result(eng, I, bad, cands, samples, validated, asserting, t0, inconclusive="translator does not cover: %s" % e)
